@@ -2,6 +2,7 @@ package gen
 
 import (
 	"fmt"
+	"strings"
 
 	"verif/sim/prng"
 )
@@ -95,7 +96,7 @@ type Cfg struct {
 	TypeSw   bool
 	NFuncs   int
 	NFiles   int
-	PlainPct int // share of plain (non-generator) consumer functions
+	PlainPct int    // share of plain (non-generator) consumer functions
 	Prefix   string // prefix of generated function and file names
 	NoHelp   bool   // do not emit the helper declarations (another program of the same package has them)
 	OptFile  string // file name of the optimiser templates (default gen_opt.go; C15 makes it sort first)
@@ -103,38 +104,38 @@ type Cfg struct {
 }
 
 type G struct {
-	r      *prng.R
-	cfg    Cfg
-	prog   *Prog
-	tag    int
-	sid    int
-	funcs  []*Func // generated so far (callable by later ones)
-	feat   map[string]bool
-	needPick bool
+	r           *prng.R
+	cfg         Cfg
+	prog        *Prog
+	tag         int
+	sid         int
+	funcs       []*Func // generated so far (callable by later ones)
+	feat        map[string]bool
+	needPick    bool
 	needHelpers bool
-	topCtr int // function-level loop counters c0, c1, ... declared at the top of the body
-	varStyle bool // this function declares its int locals with var, never with :=
+	topCtr      int  // function-level loop counters c0, c1, ... declared at the top of the body
+	varStyle    bool // this function declares its int locals with var, never with :=
 }
 
 type fctx struct {
-	g      *G
-	gen    bool
-	elem   string
-	named  bool
-	nilRet bool
-	loops  int
-	sws    int
-	depth  int
-	sc     *scope
-	left   *int
-	plainRet string // result type of the enclosing plain function literal / plain function ("" void)
-	inLit  bool
-	dead   bool // generating unreachable statements (after break/continue/return)
+	g                *G
+	gen              bool
+	elem             string
+	named            bool
+	nilRet           bool
+	loops            int
+	sws              int
+	depth            int
+	sc               *scope
+	left             *int
+	plainRet         string // result type of the enclosing plain function literal / plain function ("" void)
+	inLit            bool
+	dead             bool // generating unreachable statements (after break/continue/return)
 	innerSwitchYield bool
 }
 
-func (g *G) nextTag() int { g.tag++; return g.tag }
-func (g *G) id() int      { g.sid++; return g.sid }
+func (g *G) nextTag() int  { g.tag++; return g.tag }
+func (g *G) id() int       { g.sid++; return g.sid }
 func (g *G) mark(f string) { g.feat[f] = true }
 
 var (
@@ -164,8 +165,8 @@ func (c *fctx) fresh(pool []string) string {
 	return cand[c.g.r.Intn(len(cand))]
 }
 
-func lit(n int) *X        { return &X{K: XLit, Lit: n} }
-func v(name string) *X    { return &X{K: XVar, Name: name} }
+func lit(n int) *X                 { return &X{K: XLit, Lit: n} }
+func v(name string) *X             { return &X{K: XVar, Name: name} }
 func bin(a *X, op string, b *X) *X { return &X{K: XBin, A: a, Op: op, B: b} }
 
 // atom: literal or visible int variable
@@ -600,6 +601,12 @@ func (c *fctx) switchStmt() *S {
 			}
 		}
 		cs.Body = d.caseBody()
+		if r.Chance(1, 7) {
+			// an EMPTY clause: the value is matched and nothing happens (it must not fall
+			// to default)
+			cs.Body = nil
+			c.g.mark("switch_with_empty_clause")
+		}
 		s.Cases = append(s.Cases, cs)
 	}
 	if tagless && s.Init != nil {
@@ -1142,7 +1149,6 @@ func (c *fctx) yieldFromX(allowDecl bool) []*S {
 	return []*S{{K: SYieldFrom, ID: c.g.id(), E: call}}
 }
 
-
 // ---------------------------------------------------------------------------------------
 
 const PickDecl = `func pick(n int) any {
@@ -1436,7 +1442,28 @@ func (g *G) genFunc(i int) *Func {
 			}
 		}
 	}
-	f.Body = append(f.Body, &S{K: SReturn, ID: g.id(), Nil: !f.Named})
+	if r.Chance(1, 6) {
+		// the body ENDS in a user-written block that yields (tail position of its thunk). In
+		// front of it, with no yield in between, a variable is declared and captured; the
+		// block re-declares that name together with a new one ('t9, n9 := ..' declares a NEW
+		// t9 there), so the capture keeps the outer value
+		ret := "return"
+		if !f.Named {
+			ret = "return nil"
+		}
+		id := g.id()
+		k1, k2 := r.Range(5, 9), r.Range(2, 4)
+		text := fmt.Sprintf("t9 := %d\nget9 := func() int { return t9 }\n{\n\tt9, n9 := %d, %d\n\t«Yield»(t9 + n9)\n\tvrt.E(%d, get9(), t9)\n\t«Yield»(get9())\n\t%s\n}", r.Range(0, 3), k1, k2, g.nextTag(), ret)
+		if r.Bool() {
+			// (a yield first, so that the declarations open a continuation thunk of their own)
+			text = "«Yield»(" + fmt.Sprint(r.Range(40, 49)) + ")\n" + text
+		}
+		f.Body = append(f.Body, &S{K: SRaw, ID: id, Src: text, Ref: strings.Replace(text, "\treturn nil\n}", "\treturn\n}", 1)})
+		g.mark("tail_block_redeclares_a_captured_variable_of_its_thunk")
+		// (the block ends in a return: nothing can follow it, and Go needs no final return)
+	} else {
+		f.Body = append(f.Body, &S{K: SReturn, ID: g.id(), Nil: !f.Named})
+	}
 	for k, n := range g.quarantine(f.Body) {
 		if n > 0 {
 			g.mark("quarantined_" + k)
